@@ -651,8 +651,9 @@ def run(prop, tier):
         'wall_s': round(time.time() - t_start, 1),
         'violations': len(new),
     }
-    os.makedirs(os.path.join(VERIF, 'evidence'), exist_ok=True)
-    json.dump(ev, open(os.path.join(VERIF, 'evidence', prop + '.json'), 'w'), indent=1, default=str)
+    evdir = os.environ.get('VERIF_EVIDENCE_DIR', os.path.join(VERIF, 'evidence'))   # experiments only
+    os.makedirs(evdir, exist_ok=True)
+    json.dump(ev, open(os.path.join(evdir, prop + '.json'), 'w'), indent=1, default=str)
     print('  programs enumerated=%d analysed=%d invalid=%d unsupported=%d encoding_mismatch=%d unknown=%d violations(new)=%d known=%d solver_s=%.1f'
           % (len(recs), len(analysed), counts.get('invalid', 0), counts.get('unsupported', 0),
              counts.get('encoding_mismatch', 0), counts.get('unknown', 0), len(new),
